@@ -523,7 +523,53 @@ class C16(Check):
             cases.append(['parse ' + H(d[:k]), 'parse ' + H(d[:k] + b'\0' + tail)])
         out.append(Stream('embedded_nul', cases, note='a document cut at a random offset, and the same bytes followed by NUL + more text: same result'))
         out += self.streams_reuse(th, rng)
+        out += self.streams_wide(th, rng)
         return out
+
+    def streams_wide(self, th, rng):
+        """many attributes per element (HashMap grows past its first blocks), many content items, values and names of 1..64 KiB"""
+        cases = []
+        def big(n, kind):
+            if kind == 0:
+                return bytes(rng.choice(b'abcdefghijklmnopqrstuvwxyz 0123456789.,;:=/') for _ in range(n))
+            if kind == 1:                                   # every byte must be escaped: the reserve arithmetic of escapeString
+                return bytes(rng.choice(b'<>&"\'\n\r') for _ in range(n))
+            if kind == 2:
+                return bytes(rng.randrange(1, 256) for _ in range(n))
+            return (value(rng) or b'x') * (n // 4 + 1)
+        for na in ([5, 8, 9, 16, 17, 32, 33, 40, 64, 100] if th else [5, 9, 17, 40]):
+            ops = ['open ' + H(b'wide')]
+            for k in range(na):
+                ops.append('attr %s %s' % (H(b'a%d' % k if k % 3 else b'n' + bytes([rng.choice(NAME_CHARS) for _ in range(3)]) + b'%d' % k), H(value(rng))))
+            if rng.random() < 0.5:
+                ops.append('attr %s %s' % (H(b'a1'), H(b'again')))      # an equal key: replaced in place
+            cases.append(ops + ['str', 'rt'])
+            cases.append(ops + ['str', 'rtinto'])
+            doc = b'<w ' + b' '.join(b'k%d="%d&amp;"' % (k % (na - 1), k) for k in range(na)) + b'>' + b''.join(b'<c i="%d"/>t%d' % (k, k) for k in range(na)) + b'</w>'
+            cases.append(['parse ' + H(doc)])
+            cases.append(['parse ' + H(doc[:-3] + b'\n\n</x>')])
+        for nc in ([100, 257, 1000] if th else [100, 257]):
+            ops = ['open 72']
+            for k in range(nc):
+                ops += ['open ' + H(b'c%d' % (k % 10)), 'attr 69 ' + H(b'%d' % k), 'close'] if k % 2 else ['text ' + H(b't%d' % k)]
+            cases.append(ops + ['str', 'rt'])
+        for n in ([1024, 4095, 4096, 4097, 16384, 65536] if th else [1024, 4097, 65536]):
+            for kind in range(4):
+                # escape-heavy values grow 5x when serialised; the extracted model recurses once per byte (8 MB stack), and escapeString reallocates per escaped byte (2 s watchdog)
+                v = big(n, kind)[:n if kind in (0, 2) else min(n, 4096)]
+                cases.append(['open 61', 'attr 6b ' + H(v), 'str', 'rt'])
+                t = v if v.strip(b' \t\r\n\x0b\x0c') else b'x' + v
+                cases.append(['open 61', 'open 62', 'close', 'text ' + H(t), 'open 63', 'attr 6b ' + H(v[:n // 4]), 'close', 'str', 'rt'])
+            nm = bytes(rng.choice(NAME_CHARS) for _ in range(n))
+            nm = bytes([rng.choice(NAME_START)]) + nm[1:]
+            cases.append(['open ' + H(nm), 'attr ' + H(nm) + ' 76', 'open ' + H(nm[:n // 2]), 'close', 'str', 'rt'])
+            m = min(n, 16384)
+            cases.append(['parse ' + H(b'<' + nm[:m] + b' ' + nm[:m] + b'="' + big(m, 0) + b'">' + big(m, 0) + b'&lt;</' + nm[:m] + b'x>')])   # wrong end tag: the message quotes the long name
+            cases.append(['parse ' + H(b'<a k="' + big(n, 0))])                                                                          # unterminated long value
+            cases.append(['parse ' + H(b'<a>' + b'&amp;' * (n // 5) + b'&#65;' * 10 + b'</a>')])
+            cases.append(['parse ' + H(b'<!--' + big(n, 0).replace(b'--', b'- ') + b'-->' + b'\n' * 50 + b'<a/>x')])
+        return [Stream('wide', cases, note='5..40 (100) attributes per element incl. an equal key, 100+ content items, attribute values / text / names of 1..64 KiB '
+                                           '(plain, every byte escaped, arbitrary bytes), long comments and unterminated long values')]
 
     def streams_reuse(self, th, rng):
         """one Parser object for two texts, a target Element that already holds something, the static wrappers"""
@@ -576,28 +622,44 @@ class C16(Check):
 C16.level_text = (
     'Theorems in Coq about an executable model of Xml.cpp / Xml.hpp (cursor = remaining text + offset, line, line start over the byte list '
     's ++ [0] with checked reads; skipSpace with the comment scanner, readToken, the prolog loop, parseElement / content / parseText with the '
-    'cursor rewind, entity unescape/escape through the tables regenerated from the source on every run, toString; Variant/Element values as heap '
-    'blocks with reference counts): (1) for EVERY byte list the parse terminates with fuel 2|s|+4, never reads from the empty list (nothing '
-    'beyond the terminator) and an error carries the line/column of an offset 0..|s| of the text; (2) the white-space scanner steps over every '
-    'comment, the tokenizer depends on the remaining text only, hence a comment in front of any token yields the same token; a processing '
-    'instruction in front of the root is skipped; (3) unescape (escape v) = v for all NUL-free v, predefined entities and decimal references '
+    'cursor rewind, entity unescape/escape through the tables regenerated from the source on every run, toString; the Parser object and the target '
+    'Element across calls; Variant/Element values as heap blocks with reference counts): (1) for EVERY byte list the parse terminates with fuel '
+    '2|s|+4, never reads from the empty list (nothing beyond the terminator) and an error carries the line/column of an offset 0..|s| of the text; '
+    'the answer is the same function of the text for every history of the Parser object and every previous content of the target Element '
+    '(repair 07 clears the target), so the error position of a second parse lies inside the second text; (2) the white-space scanner steps over '
+    'every comment, the tokenizer and the whole descent depend on the remaining text only (up to recorded positions), hence any mix of white space '
+    'and comments in front of any token yields the same token, a gap that begins with a comment in front of text / a child / the end tag leaves the '
+    'content loop\'s answer unchanged at any depth, parse (gap ++ d) and parse d agree; a processing instruction <?a?> in front of the document, '
+    'for bodies a without ? CR LF, is skipped: parse (<?a?> ++ d) and parse d agree (same tree up to positions / same message); '
+    '(3) unescape (escape v) = v for all NUL-free v, predefined entities and decimal references '
     'decode as XML says, attribute values and text nodes are read back exactly, and parse (toString e) = e up to recorded positions for EVERY '
-    'tree with well-formed names, NUL-free attribute values, distinct attribute names and non-blank non-adjacent text; (4) for EVERY history of '
-    'handle operations each reference count equals the number of Variant objects pointing to the block and the copy-on-write heap refines a '
+    'tree with well-formed names, NUL-free attribute values, distinct attribute names (HashMap keys) and non-blank non-adjacent text; (4) for EVERY '
+    'history of handle operations each reference count equals the number of Variant objects pointing to the block and the copy-on-write heap refines a '
     'value store, so an operation changes its target slot only.  The model is tied to the code by running the extracted model, the extracted '
     'spec and the ASan/UBSan build of the working tree on the same cases (parse results with positions, error line/column/message, serialised '
-    'bytes, re-parsed trees, every value and every reference count after handle operations).')
+    'bytes, re-parsed trees, answers of a reused Parser / non-empty target / the static wrappers, every value and every reference count after handle operations).')
 C16.level_note = (
-    'Full for the model. Trusted/modelled: Coq kernel, extraction + OCaml driver, harness, table translator; sscanf("#%u") is modelled as a '
+    'Full for the model. Trusted/modelled: Coq kernel, extraction + OCaml driver, harness (it compares the answers of a reused Parser / non-empty '
+    'target with those of fresh ones itself), table translator; sscanf("#%u") is modelled as a '
     'reference decimal scanner (glibc semantics: white space, sign, 64-bit saturation, truncation to 32 bits) and Unicode::toString as the '
     'UTF-8 encoder - both validated by correspondence only; HashMap<String,String> keeps insertion order and replaces on an equal key '
     '(modelled, validated by correspondence). Nesting depth: the model needs no bound (fuel is linear in the length); the C++ recursion depth '
-    '(up to 1000) is validated by the depth-1000 cases only. The comment clause is proved at the tokenizer (every token is read through '
-    'readToken: any mix of white space and comments in front of any token gives the same token), not as a statement about whole '
-    'documents; a comment glued to the end of a name belongs to the name (names end at / > = or white space only). The '
-    'processing-instruction clause is proved for bodies without ?, CR, LF. '
+    '(up to 1000) is validated by the depth-1000 cases only. Comments: the clause is proved at the tokenizer (any gap in front of any token), at '
+    'parseText / the content loop (a gap that begins with a comment, followed by something that does not begin with white space) and in front of '
+    'the document; the composition of the content-loop theorem into one statement about a comment at an arbitrary place of a whole document is '
+    'not stated. The code\'s behaviour next to text is asymmetric and the model mirrors it: white space behind a comment in front of text is '
+    'swallowed with the comment, white space in front of such a comment becomes a text node of its own (Example ex_space_around_comment); a comment '
+    'glued to the end of a name belongs to the name (names end at / > = or white space only). The processing-instruction theorem covers bodies '
+    'without ?, CR, LF; the line-break-in-body path (fix 03) is covered by an Example and by the correspondence streams only. '
+    'Character references: only decimal ones are decoded (theorem xml_numeric_reference); a hexadecimal reference such as &#x41; stays literal '
+    'text, &#55296; yields the three bytes ed a0 80 (a surrogate code point is not rejected), &#0; puts a 0 byte into the String, a value '
+    '>= 1114112 decodes to nothing - all mirrored by the model, none judged by a theorem (the property text does not say). '
+    'Handles: the history alphabet fuses mutable access and write (`toElement()` followed at once by the assignment); a reference obtained from '
+    'toElement() and kept across a later copy of the Variant (`Element& e = v.toElement(); Variant w(v); e.type = ...;` changes w as well) is '
+    'outside the model - the independence theorem is about histories of complete operations. distinct attribute names are forced by HashMap. '
     'In-place writes of a nested content item redirect slots only (a content list of another block pointing to it is excluded by the proved '
-    'count invariant). Element.line/column of elements created by toElement() are uninitialised in the code and not compared.')
+    'count invariant). Element.line/column of elements created by toElement() are uninitialised in the code and not compared. '
+    'Xml::Parser::parse(const char*, Element&) is declared but defined nowhere (not callable, not driven).')
 C16.rule = (
     'cases = one parse of a generated / mutated / exhaustively enumerated document, or a tree built by open/attr/text/close then serialised and '
     're-parsed, or a history of Variant handle operations with dumps, or one entity reference; generators aim at the case splits of the proofs: '
